@@ -36,7 +36,7 @@ func (f *Frame) spawnProducer(fc *FuncContract, name string, fn *ssa.Function, a
 				if f.covers == nil {
 					f.covers = map[string]coverInfo{}
 				}
-				f.covers[ch.T] = coverInfo{rn, idx}
+				f.covers[ch.T] = coverInfo{rn, idx, f.cur}
 			}
 		})
 	}
